@@ -268,6 +268,8 @@ def con2(tier):
                 yield _conn_spec(sk, srcs, tgts, excl=[('S1', 'T1')])
                 if sk == 'indep':
                     yield _conn_spec(sk, srcs, tgts, excl=[('S2', 'T2')])
+                # exclusion between two connectors that are conditional on DIFFERENT choices / nesting levels
+                yield _conn_spec(sk, srcs, tgts, excl=[('S2', 'T1')])
     # grouping on both sides
     for ds in itertools.product(D, repeat=2):
         for dt in itertools.product(D, repeat=2):
